@@ -1,6 +1,9 @@
 import GrinVerif.Drv.Common
 import GrinVerif.Model.SerBlock
 import GrinVerif.Model.SerMsg
+import GrinVerif.Model.SerStore
+import GrinVerif.Model.DecVerify
+import GrinVerif.Model.SerIds
 /-! Driver glue for the `ser` domain (line protocol handler).
 
     ser const <name>                                   => <value>
@@ -8,6 +11,13 @@ import GrinVerif.Model.SerMsg
     ser dec <Type> <ver> <nrd 0|1> <chain A|M> <hex>   => ok <consumed> <enc@1> <enc@2> <enc@3> <hash|none> | err <E>
     ser enc <Type> <ver> <chain A|M> <value tokens…>   => <enc|E:err> <hash|none>
     ser hdr <chain A|M> <hex>                          => known <type> <len> <consumed> | unknown <type> <len> <consumed> | err <E>
+    ser elmt <chain A|M> <header tokens…>              => <enc of as_elmt()> <Hashed::hash of the entry>
+    ser skip <chain A|M> <ver> <hex>                   => ok <consumed> <enc of the header read under SkipPow> <#nonces> | err <E>
+    ser fromvec <hex>                                  => <Hash::from_vec>
+    ser sigmsg <kernel features tokens>                => <kernel_sig_msg, 32 bytes>
+    ser prepow <chain A|M> <header tokens…>            => <BlockHeader::pre_pow()>
+    ser shortid <item hash> <block hash> <nonce>       => <short_id, 6 bytes>
+    ser mvlive <path hashes> <mmr_size> <live peak>    => as-model | differs:model=<bytes>   (MerkleProof::verify)
 
 `enc@v` is the model's re-encoding of the decoded value at protocol version v (`E:<err>` when the
 writer refuses), `hash` the blake2b-256 of the hash-mode bytes for types that have a hash. -/
@@ -391,6 +401,33 @@ def cOutputSegmentResponse : Codec OutputSegmentResponse :=
   plain decOutputSegmentResponse encOutputSegmentResponse tOutputSegmentResponse
 def cOutputBitmapSegmentResponse : Codec OutputBitmapSegmentResponse :=
   plain decOutputBitmapSegmentResponse encOutputBitmapSegmentResponse tOutputBitmapSegmentResponse
+def tHeaderEntry : TokP HeaderEntry := fun ts => do
+  let (h, ts) ← tHex ts
+  let (t, ts) ← tNat ts
+  let (d, ts) ← tNat ts
+  let (s, ts) ← tNat ts
+  let (f, ts) ← tNat ts
+  pure ({ hash := h, timestamp := t, totalDifficulty := d, secondaryScaling := s, isSecondary := f != 0 }, ts)
+
+def tCommitPos : TokP CommitPos := fun ts => do
+  let (p, ts) ← tNat ts
+  let (h, ts) ← tNat ts
+  pure ({ pos := p, height := h }, ts)
+
+def tMerkleProof : TokP MerkleProof := fun ts => do
+  let (s, ts) ← tNat ts
+  let (l, ts) ← tCounted tHex ts
+  pure ({ mmrSize := s, path := l }, ts)
+
+/-- store-side encodings (`Model/SerStore.lean`); the identity hash of a `HeaderEntry` is the stored
+hash itself (`Hashed for HeaderEntry`), so `hashB` is not used for it (see `runDecEntry`) -/
+def cHeaderEntry : Codec HeaderEntry := plain decHeaderEntry encHeaderEntry tHeaderEntry
+def cCommitPos : Codec CommitPos := plain decCommitPos encCommitPos tCommitPos
+def cSpentIndex : Codec (List CommitPos) := plain decSpentIndex encSpentIndex (tCounted tCommitPos)
+def cMerkleProof : Codec MerkleProof := plain decMerkleProof encMerkleProof tMerkleProof
+/-- `Vec<OutputIdentifier>` through the generic `impl Readable for Vec<T>`: an item type whose
+reader can fail with something else than `UnexpectedEof` -/
+def cOutputIdVec : Codec (List OutputId) := plain (decVec decOutputId) (writeMulti encOutputId) (tCounted tOutputId)
 /-- `Headers` has a writer only (`dec` refuses everything; no `dec` line is ever printed for it) -/
 def cHeaders : Codec (List BlockHeader) :=
   { dec := fun _ _ => .error .corrupted,
@@ -452,6 +489,11 @@ def withCodec (ty : String) (k : {α : Type} → Codec α → Option String) : O
   | "OutputSegmentResponse" => k cOutputSegmentResponse
   | "OutputBitmapSegmentResponse" => k cOutputBitmapSegmentResponse
   | "Headers" => k cHeaders
+  | "HeaderEntry" => k cHeaderEntry
+  | "CommitPos" => k cCommitPos
+  | "SpentIndex" => k cSpentIndex
+  | "MerkleProof" => k cMerkleProof
+  | "OutputIdVec" => k cOutputIdVec
   | "MsgHeaderA" => k (cMsgHeader (netOf "A"))
   | "MsgHeaderM" => k (cMsgHeader (netOf "M"))
   | _ => none
@@ -489,6 +531,12 @@ def constVal : String → Option String
   | "max_locators" => some (toString GV.Gen.MAX_LOCATORS)
   | "capabilities_all" => some (toString GV.Gen.Msg.CAPABILITIES_ALL)
   | "msg_header_len" => some (toString GV.Gen.Msg.MSG_HEADER_LEN)
+  | "elmt_size_BlockHeader" => some (toString HEADER_ENTRY_SIZE)
+  | "elmt_size_OutputIdentifier" => some (toString OUTPUT_ID_SIZE)
+  | "elmt_size_RangeProof" => some (toString RANGE_PROOF_ELMT_SIZE)
+  | "elmt_size_BitmapChunk" => some (toString BITMAP_CHUNK_SIZE)
+  | "elmt_size_TxKernel" => some "none"
+  | "second_pow_edge_bits" => some (toString GV.Gen.SECOND_POW_EDGE_BITS)
   | _ => none
 
 def runHdr (chain : String) (bs : Bytes) : String :=
@@ -497,8 +545,39 @@ def runHdr (chain : String) (bs : Bytes) : String :=
   | .ok (.known t len, r) => s!"known {t} {len} {bs.length - r.length}"
   | .ok (.unknown len t, r) => s!"unknown {t} {len} {bs.length - r.length}"
 
+/-- `ser elmt`: `BlockHeader::as_elmt()` written out, and the entry's `Hashed::hash()` -/
+def runElmt (c : Cfg) (toks : List String) : Option String :=
+  match tBlockHeader toks with
+  | some (h, []) =>
+    let e := h.asElmt h256 c.proofSize
+    some s!"{toHex (encHeaderEntry e)} {toHex e.identityHash}"
+  | _ => none
+
+/-- `ser skip`: a header read with `DeserializationMode::SkipPow` -/
+def runSkip (c : Cfg) (bs : Bytes) : String :=
+  match decBlockHeaderSkip bs with
+  | .error e => "err " ++ e.name
+  | .ok (h, r) =>
+    s!"ok {bs.length - r.length} {toHex (encBlockHeader c.proofSize .full h)} {h.pow.proof.nonces.length}"
+
+/-- `ser mvlive`: the live peak measured around one real `MerkleProof::verify` call against the
+instrumented model (`Model/DecVerify.lean`): at least the model's `32·n + 8·p` (the one clone of the
+path and the peak vector), at most that with the peak vector at the capacity a growing `Vec<u64>`
+gets (4 or the next doubling) plus 8 KiB for temporaries -/
+def runMvLive (n size peak : Nat) : String :=
+  let p := (GV.Pmmr.peaks size).length
+  let lo := GV.DecVerify.HASH_BYTES * n + 8 * p
+  let hi := GV.DecVerify.HASH_BYTES * n + 8 * (max 4 (2 * p)) + 8192
+  if lo ≤ peak ∧ peak ≤ hi then "as-model" else s!"differs:model={lo}"
+
 def ofOpt (impl : String) : Option String → Verdict
   | some m => cmpModel m impl
+  | none => .unknown
+
+/-- for values that ARE the definition every node must share (signature message, pre-pow bytes, short
+id, the header MMR entry of a header): a deviation is a concrete failing input, not a model disagreement -/
+def ofOptSpec (impl : String) : Option String → Verdict
+  | some m => cmpSpec m impl
   | none => .unknown
 
 def handle (st : St) (args : List String) (impl : String) : St × Verdict :=
@@ -519,6 +598,38 @@ def handle (st : St) (args : List String) (impl : String) : St × Verdict :=
       let v ← ver.toNat?
       let c ← mkCfg v true chain
       withCodec ty fun cd => runEnc cd c toks))
+  | "elmt" :: chain :: toks =>
+    (st, ofOptSpec impl (do
+      let c ← mkCfg 1 true chain
+      runElmt c toks))
+  | ["skip", chain, ver, hex] =>
+    (st, ofOpt impl (do
+      let v ← ver.toNat?
+      let c ← mkCfg v true chain
+      let bs ← parseHex hex
+      some (runSkip c bs)))
+  | ["mvlive", n, size, peak] =>
+    (st, ofOpt impl (do
+      let n ← n.toNat?
+      let size ← size.toNat?
+      let peak ← peak.toNat?
+      some (runMvLive n size peak)))
+  | "sigmsg" :: toks =>
+    (st, ofOptSpec impl (match tKernelFeatures toks with
+      | some (f, []) => some (toHex (h256 f.sigMsgBytes))
+      | _ => none))
+  | "prepow" :: _chain :: toks =>
+    (st, ofOptSpec impl (match tBlockHeader toks with
+      | some (h, []) => some (toHex (prePow h))
+      | _ => none))
+  | ["shortid", item, blk, nonce] =>
+    (st, ofOptSpec impl (do
+      let i ← parseHex item
+      let b ← parseHex blk
+      let n ← nonce.toNat?
+      some (toHex (shortId h256 i b n))))
+  | ["fromvec", hex] =>
+    (st, ofOpt impl ((parseHex hex).map fun bs => toHex (hashFromVec bs)))
   | _ => (st, .unknown)
 
 end GV.Drv.SerD
